@@ -83,6 +83,13 @@ def gotoPayload : Payload := "go_to".toList
 def gotoPrefix : Str := "goto.".toList
 /-- the default `Condition()` -/
 def blankLabel : Label := []
+/-- `"start"` (the `from` of the first row; the remapping dict starts as `{"start": "start"}`) -/
+def startStr : Str := "start".toList
+/-- separator of a temp row id `"{uuid}|{name}"` (the pair constructor of `TempId`) -/
+def tempIdSeparator : Str := "|".toList
+/-- `excluded_headers` of `to_row_data_sheet(strip_uuids=True)` = the headers of the two `U`-valued
+fields of `RowT` (`nodeId` ↦ `_nodeId`, `objId` ↦ `obj_id`) that `RowS` does not have -/
+def excludedHeaders : List Str := ["_nodeId".toList, "obj_id".toList]
 
 variable {U : Type} [DecidableEq U]
 
@@ -153,8 +160,6 @@ def toRowsT (f : FlowX U) : Except Err (List (RowT U)) :=
     | .ok st => .ok st.rows
 
 /-! ### remapping of the temp ids -/
-
-def startStr : Str := "start".toList
 
 /-- candidates `base`, `base.1`, `base.2`, … -/
 def cand (base : Str) (k : Nat) : Str := if k = 0 then base else base ++ '.' :: natStr k
